@@ -417,7 +417,8 @@ func (c *copier) copy(ctx context.Context, src, srcComponents, target string, ov
 		if link != "" {
 			// the copy of this inode made earlier may have been replaced since (matches of a wildcard
 			// source with the same base name): only link to what was written for it
-			if lfi, err := os.Lstat(link); err != nil || !os.SameFile(lfi, c.linkDst[link]) {
+			// (inode numbers are reused, so the type is checked as well: never link to a symlink)
+			if lfi, err := os.Lstat(link); err != nil || !lfi.Mode().IsRegular() || !os.SameFile(lfi, c.linkDst[link]) {
 				link = ""
 			}
 		}
